@@ -37,6 +37,16 @@ class _Self:
 
 
 SELF = _Self()
+
+
+class T:
+    "operand built when the operation is applied (every call gets its own object)"
+
+    def __init__(self, typ, items):
+        self.typ, self.items = typ, items
+
+    def make(self):
+        return self.typ(self.items)
 EVERY_OTHER = list(range(0, 768, 2))
 SEEDS = [  # name, number of items, items removed one by one (public API)
     ('empty', 0, []), ('3 items', 3, []), ('9 items, 1 dead run', 9, [2]), ('17 items, 2 dead runs', 17, [3, 9]),
@@ -110,6 +120,7 @@ class Run:
     def apply(self, op):
         """model first, then the real object.  returns (real outcome, expected) where expected is
         ('ret', v) / ('raises',) / None (statement silent)"""
+        op = self.last_op = (op[0], tuple(a.make() if isinstance(a, T) else a for a in op[1]), op[2])
         name, args, kw = op
         before = list(self.R.m)
         margs = [list(before) if a is SELF else a for a in args]
@@ -165,7 +176,7 @@ def mutators(m, mode=0):
     f1, f2 = fresh(m)
     P = sorted(set(p for p in (0, 1, n // 2, n - 2, n - 1) if 0 <= p < n))
     big = n > 100
-    seq = (lambda x: set(x)) if big else (lambda x: list(x))
+    seq = set if big else list
     ops = [('add', (f1,), {}), ('remove', (f1,), {}), ('discard', (f1,), {}), ('pop', (), {}), ('clear', (), {}),
            ('sort', (), {}), ('sort', (), {'reverse': True}), ('reverse', (), {}), ('update', (), {}),
            ('intersection_update', (), {}), ('difference_update', (), {}), ('difference_update', (SELF,), {}),
@@ -178,17 +189,17 @@ def mutators(m, mode=0):
         ops += [('pop', (p,), {}) for p in P] + [('pop', (-2,), {}), ('pop', (-n,), {})][:2 if n > 1 else 0]
         if mode == 2:
             return [o for o in ops if o[0] in ('add', 'remove', 'discard', 'pop') and o[1] != (f1,) or o[:2] == ('add', (f1,))]
-        ops += [('update', (list(OA),), {}), ('update', (set(OA), tuple(OB)), {}), ('|=', (IndexedSet(OB),), {}),
-                ('intersection_update', (frozenset(K1),), {}), ('intersection_update', (seq(K1), IndexedSet(K2)), {}),
-                ('&=', (set(K2),), {}),
-                ('difference_update', (set([b, f1]),), {}), ('difference_update', ([b, f1], (a, f2)), {}),
-                ('-=', (IndexedSet([a, f2]),), {}),
-                ('symmetric_difference_update', ([c, f1, a],), {}), ('^=', (set(OA),), {})]
+        ops += [('update', (T(list, OA),), {}), ('update', (T(set, OA), T(tuple, OB)), {}), ('|=', (T(IndexedSet, OB),), {}),
+                ('intersection_update', (T(frozenset, K1),), {}), ('intersection_update', (T(seq, K1), T(IndexedSet, K2)), {}),
+                ('&=', (T(set, K2),), {}),
+                ('difference_update', (T(set, [b, f1]),), {}), ('difference_update', ([b, f1], (a, f2)), {}),
+                ('-=', (T(IndexedSet, [a, f2]),), {}),
+                ('symmetric_difference_update', ([c, f1, a],), {}), ('^=', (T(set, OA),), {})]
         if not mode:
-            ops += [('update', (frozenset(OB),), {}), ('update', (IndexedSet(OA),), {}), ('|=', (set(OA),), {}),
-                    ('intersection_update', (tuple(K2) if not big else frozenset(K2),), {}),
-                    ('-=', (frozenset([b, f1]),), {}), ('^=', (IndexedSet(OA),), {}),
-                    ('symmetric_difference_update', (set(OA),), {})]
+            ops += [('update', (T(frozenset, OB),), {}), ('update', (T(IndexedSet, OA),), {}), ('|=', (T(set, OA),), {}),
+                    ('intersection_update', (T(frozenset if big else tuple, K2),), {}),
+                    ('-=', (T(frozenset, [b, f1]),), {}), ('^=', (T(IndexedSet, OA),), {}),
+                    ('symmetric_difference_update', (T(set, OA),), {})]
     if mode == 1:
         ops = [o for o in ops if o[0] not in ('sort', 'reverse') and o[1:] != ((), {}) or o[0] in ('pop', 'clear')]
     return ops
@@ -419,8 +430,8 @@ def explore(H, buf, seed, depth, modes, frac, part):
         for i in range(nops):
             run = replay(seed, hist)
             m_before = list(run.R.m)
-            op = mutators(m_before, red)[i]
-            res = run.apply(op)
+            res = run.apply(mutators(m_before, red)[i])
+            op = run.last_op
             h2 = hist + ((i, red),)
             H.ev(key=(seed[0], h2), nontrivial=bool(run.flags) or NONTAIL in base.flags, part=part,
                  sample=dict(seed=seed[0], history=run.lines[-len(h2):]))
@@ -441,8 +452,8 @@ def random_histories(H, buf, seed, runs, length, rseed):
             m_before = list(run.R.m)
             ops = mutators(m_before)
             ops = [o for o in ops if o[0] != 'clear' and o[1] != (SELF,)] if rnd.random() < 0.9 else ops
-            op = rnd.choice(ops)
-            res = run.apply(op)
+            res = run.apply(rnd.choice(ops))
+            op = run.last_op
             H.ev(key=('rnd', seed[0], rseed, r, step), nontrivial=bool(run.flags), part='random')
             if not judge(H, buf, run, 2, op, res, m_before):
                 break
